@@ -72,8 +72,15 @@ func (P *Prog) buildRecDef(sf *SpecFunc) string {
 	env := &Env{st: st, vars: map[string]Val{}, pkg: sf.Pkg}
 	var binders, sorts, args []string
 	for _, p := range sf.Params {
-		t := x.resolveType(sf.Pkg, p.Type)
 		nm := "v_" + p.Name
+		if p.Type == "bytes" {
+			env.vars[p.Name] = Val{K: KArr, T: nm}
+			binders = append(binders, "("+nm+" (Array Int Int))")
+			sorts = append(sorts, "(Array Int Int)")
+			args = append(args, nm)
+			continue
+		}
+		t := x.resolveType(sf.Pkg, p.Type)
 		if t == nil {
 			env.vars[p.Name] = specInt(nm)
 			binders = append(binders, "("+nm+" Int)")
